@@ -124,9 +124,10 @@ def _member_order_free(proj, version):
 TEXTS = ['t', 'two words', '<a & "b">']
 
 
-def h_export(kl: int, kt: int, has_a: bool, has_b: bool, with_ext: bool) -> bool:
+def h_export(kl: int, kt: int, has_a: bool, has_b: bool, with_ext: bool, has_c: bool) -> bool:
     """
     pre: kl == rt.part(24)[0] // 8 and 0 <= kt < 3
+    pre: rt.THOROUGH or has_c == has_b
     post: _
     """
     part = rt.part(24)[0] % 8
@@ -141,7 +142,7 @@ def h_export(kl: int, kt: int, has_a: bool, has_b: bool, with_ext: bool) -> bool
                sx1_meta_source=dcv, def1_meta_source=dcv, lex_meta_title=dcv,
                has_sx1_meta=has_a, has_ssr_meta=has_a, has_count1_meta=has_a,
                has_def1_lang=has_a, has_def1_source=has_a, has_ss2_ilidef=has_b,
-               has_sx1_lang=has_b, has_frame_id2=has_b, has_members=has_b, has_requires_url=has_b,
+               has_sx1_lang=has_c, has_frame_id2=has_c, has_members=has_c, has_requires_url=has_c,
                has_ss1_ilidef=False)
     p = docs.P(sym)
     doc = docs.lexicon_rich(p, style=style)
@@ -329,7 +330,8 @@ OBLIGATIONS = [
        symbolic='label / citation from ' + repr(ATTRS) + ', example text and proposed-ILI definition '
                 'from ' + repr(TEXTS) + ', definition language and metadata value (2 values each), two groups of '
                 'presence bits (metadata, languages, source sense, proposed ILI without definition, '
-                'second frame id, members, dependency url), whether an extension is installed',
+                'second frame id, members, dependency url; a third independent group in the thorough '
+                'tier), whether an extension is installed',
        bounds='rich skeleton; partitions: export version 1.0-1.3 x source style (1.0: entry-level '
               'frames / 1.1: lexicon-level frames with subcat)'),
     Ob('scan-of-export', 'h_scan_export', parts=4, quick=dict(timeout=200), thorough=dict(timeout=600),
